@@ -40,7 +40,7 @@ func init() {
 		return hx(c17StrToFold(unhx(a[0])))
 	}
 	register(&Prop{ID: "C17", Gen: genC17, Oracle: oracleC17,
-		Rule: "file lists and real directory trees of depth <=4 from name pools (go.mod case variants, vendor layouts, nested modules, VCS dirs, .hg_archival.txt, LICENSE, fold-colliding names incl. K/k/U+212A and s/S/U+017F, Windows reserved names, names with \\ : space .. ./x /abs a//b, invalid UTF-8), modes (regular, dir, symlink, pipe, lstat error), fake sizes at 16MiB+-1 and 500MiB+-1, 17 go.mod contents; non-trivial = at least one file is omitted or invalid, or a go.mod selects the go version; distinct by op line"})
+		Rule: "file lists and real directory trees of depth <=4 from name pools (go.mod case variants, vendor layouts, nested modules, VCS dirs, regular FILES named .git/.hg/.svn/.bzr/vendor/LICENSE/.hg_archival.txt at the root and 1-2 levels down with siblings sorting on both sides, .hg_archival.txt, LICENSE, fold-colliding names incl. K/k/U+212A and s/S/U+017F, Windows reserved names, names with \\ : space .. ./x /abs a//b, invalid UTF-8), modes (regular, dir, symlink, pipe, lstat error), fake sizes at 16MiB+-1 and 500MiB+-1, 17 go.mod contents; non-trivial = at least one file is omitted or invalid, or a go.mod selects the go version; distinct by op line"})
 }
 
 func c17NonTrivial(out string) bool {
@@ -70,6 +70,11 @@ func genC17(g *Gen, n int) {
 		g.Emit("zip.strtofold "+hx(pr[0]), true, "fold-sweep")
 		g.Emit("zip.strtofold "+hx(pr[1]), true, "fold-sweep")
 	}
+	// regular files with names that are special for directories / at the root, with siblings on both sides
+	for _, fs := range c17SpecialFileSweep() {
+		g.Emit("zip.checkdir "+c17DirGe124(fs)+" "+zipuDirFilesTok(fs), true, "special-file-sweep")
+		g.Emit("zip.createfromdir "+hx("example.com/m")+" "+hx("v1.0.0")+" "+c17DirGe124(fs)+" "+zipuDirFilesTok(fs), true, "special-file-sweep")
+	}
 	for i := 0; g.st.Ops < n; i++ {
 		switch k := g.Intn(100); {
 		case k < 50:
@@ -95,6 +100,116 @@ func genC17(g *Gen, n int) {
 			g.Emit(g.Pick([]string{"zip.pathclean ", "zip.pathclean ", "zip.pathdir ", "zip.pathbase "})+hx(s), true, "clean")
 		}
 	}
+}
+
+// ---- input class "special name as a REGULAR FILE" --------------------------------------------------
+//
+// Names that the package treats specially when they name a DIRECTORY (.git/.hg/.svn/.bzr: VCS metadata,
+// skipped with SkipDir; vendor) or when they stand at the root (.hg_archival.txt, LICENSE) are ordinary
+// file names when a regular file somewhere in the tree carries them (a gitlink file `.git` as written by
+// `git submodule` / `git worktree`, a file called `vendor`, ...).  Such trees satisfy the precondition of
+// the directory-vs-list clause (regular files and directories only, no VCS metadata DIRECTORY), so the
+// directory entry points must treat them exactly as the list entry points do.
+// Why it was missing: the oracle's tree generator ran with noVCS, which filters the four VCS names out of
+// the element pool altogether — also where they would have become regular files — so the dir-vs-list
+// oracle never saw a regular file with such a name (the correspondence generator, which does not filter,
+// did).  What matters for observability is the POSITION: the walk visits a directory in sorted order, so a
+// wrong decision taken at such a file can only show on the file itself and on siblings sorting after it;
+// the family therefore places the file at the root and 1-2 levels down, always with sibling files and
+// sibling directories sorting before and after it.
+var c17SpecialFileNames = []string{".git", ".hg", ".svn", ".bzr", "vendor", ".hg_archival.txt", "LICENSE", "modules.txt"}
+
+var c17SpecialFileLocs = []string{"", "lib/", "lib/sub/", "a b/K/"}
+
+func c17Reg(p, content string) *zipuFile {
+	return &zipuFile{path: p, mode: 'r', size: int64(len(content)), content: []byte(content)}
+}
+
+// c17SpecialFileTree: the regular file loc+name with siblings (files and directories) sorting before
+// ('+' and '-' precede '.', letters and digits) and after it, in a module with other content on every
+// level above.  Listed in no particular order: the tree is created on disk and walked.
+func c17SpecialFileTree(name, loc, gomod string) []*zipuFile {
+	fs := []*zipuFile{c17Reg("go.mod", gomod), c17Reg("m.go", "package m\n")}
+	for d := loc; d != ""; {
+		d = d[:strings.LastIndex(d[:len(d)-1], "/")+1]
+		if d != "" {
+			fs = append(fs, c17Reg(d+"-up.go", "package up\n"), c17Reg(d+"zup.go", "package zup\n"))
+		}
+	}
+	if loc != "" {
+		fs = append(fs, c17Reg("zroot/z.go", "package z\n"))
+	}
+	body := "gitdir: ../.git/modules/lib\n"
+	if name == "LICENSE" {
+		body = "license text\n"
+	}
+	fs = append(fs,
+		c17Reg(loc+"-before.go", "package b\n"),
+		c17Reg(loc+"+bdir/x.go", "package x\n"),
+		c17Reg(loc+name, body),
+		c17Reg(loc+name+"x", "next\n"), // the immediate successor of the name
+		c17Reg(loc+"zafter.go", "package a\n"),
+		c17Reg(loc+"zdir/s.go", "package s\n"),
+		c17Reg(loc+"zdir/deep/t.go", "package t\n"),
+		c17Reg(loc+"~last", ""))
+	return fs
+}
+
+// c17SpecialFileSweep: every special name at every location, under both vendoring variants.
+func c17SpecialFileSweep() [][]*zipuFile {
+	var out [][]*zipuFile
+	for _, loc := range c17SpecialFileLocs {
+		for _, name := range c17SpecialFileNames {
+			for _, gm := range []string{zipuGoMods[0], zipuGoMods[1]} {
+				out = append(out, c17SpecialFileTree(name, loc, gm))
+			}
+		}
+	}
+	return out
+}
+
+// c17InjectSpecialFiles adds 1-3 regular files with special names to directories of an existing real tree
+// (the root or any directory the tree already has, so that the random siblings of that directory sort on
+// both sides of it), keeping the tree creatable: a name is only added where nothing has that path yet.
+func c17InjectSpecialFiles(r *Rand, fs []*zipuFile) []*zipuFile {
+	taken := map[string]bool{}
+	dirs := []string{""}
+	for _, f := range fs {
+		taken[f.path] = true
+		if f.mode == 'd' && !taken[f.path+"/"] {
+			taken[f.path+"/"] = true
+			dirs = append(dirs, f.path+"/")
+		}
+		for d := path.Dir(f.path); d != "."; d = path.Dir(d) {
+			if !taken[d+"/"] {
+				taken[d+"/"] = true
+				taken[d] = true
+				dirs = append(dirs, d+"/")
+			}
+		}
+	}
+	sort.Strings(dirs)
+	for k := 1 + r.Intn(3); k > 0; k-- {
+		d := dirs[r.Intn(len(dirs))]
+		if r.Chance(30) {
+			d = "" // a special file in the root hides the most
+		}
+		name := r.Pick(c17SpecialFileNames)
+		if r.Chance(60) {
+			name = r.Pick(c17SpecialFileNames[:4])
+		}
+		p := d + name
+		if taken[p] || taken[p+"/"] {
+			continue
+		}
+		taken[p] = true
+		fs = append(fs, c17Reg(p, string(zipuContent(r, name))))
+		if r.Chance(50) && !taken[d+"zz_after.go"] && !taken[d+"zz_after.go/"] {
+			taken[d+"zz_after.go"] = true
+			fs = append(fs, c17Reg(d+"zz_after.go", "package z\n"))
+		}
+	}
+	return fs
 }
 
 // c17Sparse occasionally turns one size-limited file of a real tree into a sparse file at the 16 MiB boundary.
@@ -447,6 +562,16 @@ func oracleC17(g *Gen, n int) {
 	for i := 0; i < n/3; i++ {
 		fs := zipuGenFiles(g.Rand, zipuGenOpts{realFS: true, plainOnly: true, noVCS: true, honest: true})
 		c17OracleDir(g, fs)
+	}
+	// (3) on the class "special name as a regular file" (see c17SpecialFileNames): the exhaustive small sweep,
+	// then random trees with such files injected next to their random siblings.  Kept in loops of their own
+	// after the ones above so that the random streams of the earlier cases are unchanged.
+	for _, fs := range c17SpecialFileSweep() {
+		c17OracleDir(g, fs)
+	}
+	for i := 0; i < n/6; i++ {
+		fs := zipuGenFiles(g.Rand, zipuGenOpts{realFS: true, plainOnly: true, noVCS: true, honest: true})
+		c17OracleDir(g, c17InjectSpecialFiles(g.Rand, fs))
 	}
 }
 
